@@ -494,7 +494,8 @@ def observe(lang, text):
 
 
 def python_key_keyword_class(lang, items):
-    """class of the open finding C10-python-key-keyword, decided on the IR the REAL parser produced: Python, an adjacently tagged enum whose
+    """Python twin (cross-check only) of the extracted Gallina class Spec.C10PyKeys.known_C10_py_keys, which is what classifies a case:
+    the class of the open finding C10-python-key-keyword, decided on the IR the REAL parser produced: Python, an adjacently tagged enum whose
     tag key or content key is a Python keyword - write_algebraic_enum declares both keys verbatim as class attributes (`class: Literal[..]`,
     `in: int`), while every field name goes through python_property_aware_rename (`class_: .. = Field(alias="class")`)"""
     import keyword
@@ -530,6 +531,8 @@ def judge(chk, cases, tag):
         kwq.append(kw_request(lang, obs[k][0], obs[k][1], text))
         if lang == 'go':       # Go's own classifier: the finding class of the Go declaration grammar, on the IR the REAL parser produced
             gocq.append((k, f'(c10_go_cls {back.items_sx(r["ir"])})'))
+        if lang == 'python':   # the class of the open finding C10-python-key-keyword (Spec.C10PyKeys.known_C10_py_keys)
+            gocq.append((k, f'(c10_py_keys_cls {back.items_sx(r["ir"])})'))
         if lang == 'scala':    # likewise the finding classes of the Scala declaration grammar (Spec.C10ScGrammar.known_C10_sc_grammar)
             gocq.append((k, f'(c10_sc_cls {S(cfg.get("package", ""))} {back.items_sx(r["ir"])})'))
     cfgkeys = sorted(set((cases[k][0], json.dumps(cases[k][1], sort_keys=True)) for k in idx))
@@ -563,7 +566,11 @@ def judge(chk, cases, tag):
         dom = vf.sx_get(clsa[j], 'dom') == 'true' and cfg_ok[(lang, json.dumps(cfg, sort_keys=True))]
         if not cfg_ok[(lang, json.dumps(cfg, sort_keys=True))]:
             chk.count('inadmissible_configuration')
-        known = list(vf.sx_get(clsa[j], 'known')) + list(gocls.get(k, [])) + python_key_keyword_class(lang, r['ir'])
+        known = list(vf.sx_get(clsa[j], 'known')) + list(gocls.get(k, []))
+        if lang == 'python' and sorted(vf.unS(c) if isinstance(c, str) and c.startswith('"') else c for c in gocls.get(k, [])) != python_key_keyword_class(lang, r['ir']):
+            # the extracted class (Spec/C10PyKeys.v) and the check's own reading of the same definition disagree: one of them is wrong
+            chk.violation(f'{tag}-{lang}-{k}-class', dict(payload, extracted=list(gocls.get(k, [])), python=python_key_keyword_class(lang, r['ir'])),
+                          'the extracted class known_C10_py_keys and its Python twin disagree on this input', no_input=True)
         decls, labels, fails, why = obs[k]
         fails = list(fails)
         lex = lexa[j]
